@@ -420,6 +420,79 @@ func (p *Prog) constantFreshRule(r *Report, rule string) {
 		Detail: "scope.Constant folds list literals into one pyList stored on the expression and the interpreter returns that same object on every evaluation: `def lit(): return [3,1,2]`; `a = lit(); a[0] = 99; lit()` yields [99,1,2]"})
 }
 
+// sliceFreshRule: a slice expression on a list evaluates to a list of its own (CPython copies), so that writing to the
+// slice cannot change the list it was taken from - or, for an imported list, the frozen original.
+func (p *Prog) sliceFreshRule(r *Report, rule string) {
+	is := p.Fn("parse/asp", "scope.interpretSlice")
+	if is == nil {
+		r.unresolved(rule, "asp.scope.interpretSlice")
+		return
+	}
+	n, bad := 0, 0
+	var site token.Pos
+	for _, rc := range returnCases(is, 0) {
+		v := rc.Vals[0]
+		if isNilConst(v) {
+			continue
+		}
+		mi, ok := v.(*ssa.MakeInterface)
+		if !ok || !strings.HasSuffix(typeString(mi.X.Type()), "pyList") {
+			continue // strings are immutable
+		}
+		n++
+		for _, ar := range aliasRoots(mi.X) {
+			if ar.kind != rootFresh {
+				bad++
+				site = rc.Site
+			}
+		}
+	}
+	r.check(n > 0 && bad == 0, rule, "a list slice is a new list", p.pos(site), fnName(is), itoa(n)+" list-returning path(s), each returning storage allocated for the result", "interpretSlice returns a reslice of the list it was given: `b = a[1:]; b[0] = 9` changes a, `a[:]` is not a copy, and a slice taken from an imported (frozen) list is a writable window onto the value every other package sees")
+}
+
+// defaultNotSharedRule: a default value is evaluated per call when it is an expression; when it was folded into a
+// constant and is a list, the call must get a copy, or a function that writes to its parameter changes the default for
+// every later caller (across packages, for a function that lives in a subincluded file).
+func (p *Prog) defaultNotSharedRule(r *Report, rule string) {
+	da := p.Fn("parse/asp", "pyFunc.defaultArg")
+	if da == nil {
+		r.unresolved(rule, "asp.pyFunc.defaultArg")
+		return
+	}
+	n, bad := 0, 0
+	var site token.Pos
+	for _, rc := range returnCases(da, 0) {
+		v := rc.Vals[0]
+		direct := false
+		if u, ok := v.(*ssa.UnOp); ok && u.Op == token.MUL {
+			if ia, ok := u.X.(*ssa.IndexAddr); ok && fieldKeyOfLoad(ia.X) == "parse/asp.pyFunc.constants" {
+				direct = true
+			}
+		}
+		if !direct {
+			continue
+		}
+		n++
+		notList := false
+		for _, f := range rc.Facts {
+			if e, ok := f.V.(*ssa.Extract); ok && e.Index == 1 && !f.Val {
+				if ta, ok := e.Tuple.(*ssa.TypeAssert); ok && strings.HasSuffix(typeString(ta.AssertedType), "pyList") {
+					notList = true
+				}
+			}
+		}
+		if !notList {
+			bad++
+			site = rc.Site
+		}
+	}
+	if n == 0 {
+		r.okTrivial(rule, "defaultArg never returns the stored constant itself", p.pos(da.Pos()), fnName(da), "no direct return of pyFunc.constants[i]")
+		return
+	}
+	r.check(bad == 0, rule, "a constant list default is copied for each call", p.pos(site), fnName(da), "the stored constant is returned as is only after it was found not to be a list", "defaultArg hands out the one list object stored in pyFunc.constants on every call: `def reg(name, tags=[\"t1\"]): tags[0] = name` changes the default for all later calls, and for a function defined in a subincluded file the change made while parsing one package is seen by the next")
+}
+
 func valueOf(i ssa.Instruction) ssa.Value {
 	if v, ok := i.(ssa.Value); ok {
 		return v
@@ -433,6 +506,7 @@ func checkC16(p *Prog, r *Report) {
 	p.argMutationRule(r, "E8.builtin-no-arg-mutation")
 	p.operatorFreshRule(r, "E8.operator-fresh-result")
 	p.constantFreshRule(r, "E8.constant-not-shared")
+	p.sliceFreshRule(r, "E8.slice-fresh-result")
 }
 
 func checkC17(p *Prog, r *Report) {
@@ -681,6 +755,68 @@ func checkC17(p *Prog, r *Report) {
 	// (4)
 	p.argMutationRule(r, "E8.builtin-no-arg-mutation")
 	p.operatorFreshRule(r, "E8.operator-fresh-result")
+	p.sliceFreshRule(r, "E8.slice-fresh-result")
+	p.defaultNotSharedRule(r, "E8.default-not-shared")
+	// builtin and preloaded build_defs are frozen after they were interpreted, not before
+	if lb, sfz := p.Fn("parse/asp", "interpreter.LoadBuiltins"), p.Fn("parse/asp", "scope.Freeze"); lb == nil || sfz == nil {
+		r.unresolved("E5.builtins-frozen-after-load", "asp.interpreter.LoadBuiltins / scope.Freeze")
+	} else {
+		interp := func(i ssa.Instruction) bool {
+			cc := callCommon(i)
+			if cc == nil {
+				return false
+			}
+			n := calleeName(cc)
+			return strings.HasSuffix(n, ".interpretStatements") || strings.HasSuffix(n, ".interpretAll")
+		}
+		nF, early := 0, false
+		for _, g := range withAnon(lb) {
+			for _, ci := range callsInFn(g, sfz) {
+				nF++
+				if g != lb {
+					continue // inside a closure: runs when the closure runs (deferred: at exit)
+				}
+				// in the body: no interpretation may follow it
+				eachInstr(lb, false, func(_ *ssa.Function, j ssa.Instruction) {
+					if interp(j) && existsPath(lb, ci, j, nil) {
+						early = true
+					}
+				})
+			}
+		}
+		// and a closure that freezes must be deferred or called after the interpretation
+		r.check(nF > 0 && !early, "E5.builtins-frozen-after-load", "the scope is frozen after the file was interpreted", p.pos(lb.Pos()), fnName(lb), "no interpretation of the file's statements is reachable after scope.Freeze()", "LoadBuiltins calls scope.Freeze() before the file is interpreted (as the argument of a deferred call it is evaluated at the defer statement): nothing the file defines is frozen, so top-level lists and dicts of builtin and preloaded build_defs can be changed by one BUILD file and are seen changed by the next")
+	}
+	// the scope a subinclude's functions resolve their globals through is itself frozen
+	if sf := p.Fn("parse/asp", "scope.Freeze"); sf == nil {
+		r.unresolved("E8.scope-frozen-in-place", "asp.scope.Freeze")
+	} else {
+		inPlace := false
+		eachInstr(sf, false, func(_ *ssa.Function, i ssa.Instruction) {
+			mu, ok := i.(*ssa.MapUpdate)
+			if !ok || fieldKeyOfLoad(mu.Map) != "parse/asp.scope.locals" {
+				return
+			}
+			// the stored value is the result of Freeze() on the entry
+			for x := range backSlice(mu.Value, SliceOpts{}) {
+				if c, ok := x.(*ssa.Call); ok && c.Call.IsInvoke() && c.Call.Method.Name() == "Freeze" {
+					inPlace = true
+				}
+			}
+		})
+		skips := true
+		for _, l := range mapRangeLoops(sf) {
+			if fieldKeyOfLoad(l.over) != "parse/asp.scope.locals" {
+				continue
+			}
+			// an iteration may skip the update only when the value is not freezable
+			skips = l.iterationSkipsAssuming(func(i ssa.Instruction) bool {
+				mu, ok := i.(*ssa.MapUpdate)
+				return ok && fieldKeyOfLoad(mu.Map) == "parse/asp.scope.locals"
+			}, assumeTypeAssertOK(sf, "freezable", true))
+		}
+		r.check(inPlace && !skips, "E8.scope-frozen-in-place", "scope.Freeze replaces every freezable local of the scope by its frozen form", p.pos(sf.Pos()), fnName(sf), "s.locals[k] = v.Freeze() for every freezable entry", "scope.Freeze builds the frozen values somewhere else and leaves the scope's own locals mutable: functions defined in a subincluded file resolve their globals through that scope, so one that writes to a module-level list or dict succeeds, and what it wrote while one package was parsed is seen by the next")
+	}
 	// (5) nothing adopts the storage of a frozen value it was handed
 	rule = "E8.no-adoption-of-frozen-storage"
 	{
@@ -895,6 +1031,29 @@ func checkC18(p *Prog, r *Report) {
 		if n == 0 {
 			r.ok(rule, "== on BUILD values is not reflect.DeepEqual", "-", "", "no reflect.DeepEqual on pyObject operands in package asp")
 		}
+		// the equality itself never looks at the Go type of a value: frozen and ordinary containers are different Go types
+		if pe := p.Fn("parse/asp", "pyEqual"); pe == nil {
+			r.unresolved(rule, "asp.pyEqual")
+		} else {
+			via := ""
+			eachInstr(pe, false, func(_ *ssa.Function, i ssa.Instruction) {
+				if c, ok := i.(*ssa.Call); ok && isCallTo(c, "reflect.TypeOf", "reflect.ValueOf") {
+					// allowed only after both operands failed the container unwrap helpers (the scalar fallback)
+					scalar := 0
+					for _, f := range factsAt(c) {
+						if e, ok := f.V.(*ssa.Extract); ok && !f.Val && e.Index == 1 {
+							if uc, ok := e.Tuple.(*ssa.Call); ok && (calleeName(&uc.Call) == "parse/asp.asList" || calleeName(&uc.Call) == "parse/asp.asDict") {
+								scalar++
+							}
+						}
+					}
+					if scalar < 2 {
+						via = calleeName(&c.Call)
+					}
+				}
+			})
+			r.check(via == "", rule, "pyEqual does not compare Go types of containers or their elements", p.pos(pe.Pos()), fnName(pe), "no reflect.TypeOf on values that may be containers", "pyEqual consults "+via+" on values that can be lists or dicts: an ordinary container can hold imported (frozen) elements, whose Go type differs from that of equal ordinary ones, so `[IMPORTED] == [[1]]` or `{\"k\": IMPORTED} == {...}` is False although the contents are equal")
+		}
 	}
 }
 
@@ -911,4 +1070,18 @@ func (p *Prog) operatorName(v string) string {
 		}
 	}
 	return "op" + v
+}
+
+// assumeTypeAssertOK: assumption map taking the ok result of every comma-ok type assertion to a type whose name ends in
+// suffix as val.
+func assumeTypeAssertOK(fn *ssa.Function, suffix string, val bool) map[ssa.Value]bool {
+	out := map[ssa.Value]bool{}
+	eachInstr(fn, false, func(_ *ssa.Function, i ssa.Instruction) {
+		if e, ok := i.(*ssa.Extract); ok && e.Index == 1 {
+			if ta, ok := e.Tuple.(*ssa.TypeAssert); ok && strings.HasSuffix(typeString(ta.AssertedType), suffix) {
+				out[e] = val
+			}
+		}
+	})
+	return out
 }
